@@ -1,6 +1,8 @@
 """C15 -- expand_message_xmd and hash_to_field match RFC 9380 for all parameters."""
-from .. import hashing
+from .. import h2c, hashing
 
 
 def run(ctx):
     hashing.c15(ctx)
+    # full size: hash_to_field with the 381-bit modulus, reduction recomputed by TLC in BigNat
+    h2c.h2c_tables(ctx, only=("h2f",))
